@@ -60,6 +60,7 @@ class Shard:
             cwd=HERE, env=env, stdout=subprocess.DEVNULL, stderr=open(self.stderr_path, "w"))
         self.current = None
         self.last_progress = time.time()
+        self.cpu_at_progress = 0.0
 
     def poll_lines(self):
         recs = []
@@ -79,6 +80,15 @@ class Shard:
                 except ValueError:
                     pass
         return recs
+
+
+def _proc_cpu_seconds(pid):
+    try:
+        with open("/proc/%d/stat" % pid) as f:
+            parts = f.read().rsplit(")", 1)[1].split()
+        return (int(parts[11]) + int(parts[12])) / float(os.sysconf("SC_CLK_TCK"))
+    except Exception:
+        return 0.0
 
 
 def run_cases(prop, cases, jobs, case_timeout, hang_timeout):
@@ -126,8 +136,13 @@ def run_cases(prop, cases, jobs, case_timeout, hang_timeout):
                 if progressed:
                     s.last_progress = time.time()
                 rc = s.proc.poll()
+                if progressed:
+                    s.cpu_at_progress = _proc_cpu_seconds(s.proc.pid)
                 if rc is None:
-                    if time.time() - s.last_progress > hang_timeout:
+                    # a worker is declared hung on CPU time burnt without progress (robust against a loaded machine); wall-clock time is only a
+                    # generous backstop
+                    burnt = _proc_cpu_seconds(s.proc.pid) - getattr(s, "cpu_at_progress", 0.0)
+                    if burnt > hang_timeout or time.time() - s.last_progress > hang_timeout * 20 + 900:
                         s.proc.kill()
                         s.proc.wait()
                         rc = -9
